@@ -1,6 +1,289 @@
-//! C14 (stub)
+//! C14 — every signed division flavour satisfies n = q*d + r with its sign convention.
+//!
+//! Oracle (BigInt): truncating q = trunc(n/d), r = n - q*d (sign(r) in {0, sign(n)});
+//! flooring q = floor(n/d), r = n - q*d (sign(r) in {0, sign(d)}); normalized remainder in [0, d).
+//! The quotient is none exactly for d = 0 or MIN / -1.
+//!
+//! Known finding F12 (recorded, not repaired): `div_rem_uint_vartime` / `rem_uint_vartime` with
+//! RHS_LIMBS < LIMBS return the remainder as `Int<RHS_LIMBS>`, which cannot hold
+//! |r| >= 2^(64*RHS_LIMBS-1). Exactly those inputs are tagged `"known": "F12"` (printed, not counted).
+
 use super::prelude::*;
+use crypto_bigint::{CheckedDiv, DivVartime, Wrapping};
+
+fn int<const L: usize>(x: &BigInt) -> Int<L> {
+    bi::<L>(x)
+}
+fn nzi<const L: usize>(x: &BigInt) -> NonZero<Int<L>> {
+    NonZero::new(bi::<L>(x)).unwrap()
+}
+
+/// Signed (n, d) pairs: n in [MIN_L, MAX_L]; d in [MIN_R, MAX_R] (signed divisor) or [0, 2^(64R))
+/// (unsigned divisor; returned as a non-negative BigInt). d = 0 included.
+/// All four sign combinations of the division corpus of C02 (exact and inexact division,
+/// |n| < |d|, n = q*d +- 1), d = +-1, n = MIN, d = MIN, MIN / -1, two's complement edge patterns.
+pub fn sdiv_inputs(c: &mut Ctx, l: usize, r: usize, signed_divisor: bool) -> Vec<(BigInt, BigInt)> {
+    let (lb, rb) = (64 * l as u32, 64 * r as u32);
+    let mut out = Vec::new();
+    // raw two's complement patterns from the limb alphabet
+    for (a, b) in c.scaled(2, |c| c.inputs2(l, r)) {
+        let n = wrap_signed(&BigInt::from(a), lb);
+        let d = if signed_divisor { wrap_signed(&BigInt::from(b), rb) } else { BigInt::from(b) };
+        out.push((n, d));
+    }
+    // magnitudes from the division corpus, every sign combination that is representable
+    let (nmin, nmax) = (smin(lb), smax(lb));
+    let (dmin, dmax) = if signed_divisor { (smin(rb), smax(rb)) } else { (BigInt::zero(), BigInt::from(mask(rb))) };
+    for (a, b) in c.scaled(8, |c| super::c02::div_inputs(c, l, r)) {
+        let a = BigInt::from(a & mask(lb - 1));
+        let b = if signed_divisor { BigInt::from(b & mask(rb - 1)) } else { BigInt::from(b) };
+        for (sn, sd) in [(1, 1), (-1, 1), (1, -1), (-1, -1)] {
+            if sd < 0 && !signed_divisor {
+                continue;
+            }
+            let (n, d) = (&a * sn, &b * sd);
+            if n >= nmin && n <= nmax && d >= dmin && d <= dmax {
+                out.push((n, d));
+            }
+        }
+    }
+    // the corners
+    let mut ns = vec![nmin.clone(), &nmin + 1, nmax.clone(), &nmax - 1, BigInt::from(-1), BigInt::zero(), BigInt::one(), BigInt::from(-8), BigInt::from(8), BigInt::from(-7)];
+    let mut ds = vec![dmax.clone(), &dmax - 1, BigInt::one(), BigInt::from(2), BigInt::from(3), BigInt::zero()];
+    if signed_divisor {
+        ds.extend([dmin.clone(), &dmin + 1, BigInt::from(-1), BigInt::from(-2), BigInt::from(-3)]);
+    } else {
+        ds.extend([BigInt::from(pow2(rb - 1)), BigInt::from(pow2(rb - 1)) + 1, BigInt::from(pow2(rb - 1)) - 1]);
+    }
+    for _ in 0..4 {
+        ns.push(wrap_signed(&BigInt::from(c.rnd(l)), lb));
+        let d = BigInt::from(c.rnd(r));
+        ds.push(if signed_divisor { wrap_signed(&d, rb) } else { d });
+    }
+    for n in &ns {
+        for d in &ds {
+            if *d >= dmin && *d <= dmax {
+                out.push((n.clone(), d.clone()));
+            }
+        }
+    }
+    out
+}
+
+/// truncating oracle
+fn trunc(n: &BigInt, d: &BigInt) -> (BigInt, BigInt) {
+    (n / d, n % d)
+}
+
+// ---------------------------------------------------------------- signed divisor, constant time, same width
+
+fn truncating_ct<const L: usize>(c: &mut Ctx) {
+    let bits = 64 * L as u32;
+    for (n, d) in sdiv_inputs(c, L, L, true) {
+        if c.done() {
+            return;
+        }
+        let x = int::<L>(&n);
+        if d.is_zero() {
+            let y = int::<L>(&d);
+            let none: Option<BigInt> = None;
+            check!(c, call(|| opt(x.checked_div(&y))).map(|q| q.map(|q| ib(&q))), none.clone(); n, d);
+            check!(c, call(|| opt(CheckedDiv::checked_div(&x, &y))).map(|q| q.map(|q| ib(&q))), none; n, d);
+            continue;
+        }
+        let y = nzi::<L>(&d);
+        let (q, r) = trunc(&n, &d);
+        let qo = if fits_signed(&q, bits) { Some(q.clone()) } else { None };
+        debug_assert!(qo.is_some() || (n == smin(bits) && d == BigInt::from(-1)));
+        check!(c, call(|| x.checked_div_rem(&y)).map(|(a, b)| (copt(a).map(|a| ib(&a)), ib(&b))), (qo.clone(), r.clone()); n, d);
+        check!(c, call(|| opt(x.checked_div(y.as_ref()))).map(|a| a.map(|a| ib(&a))), qo.clone(); n, d);
+        check!(c, call(|| opt(CheckedDiv::checked_div(&x, y.as_ref()))).map(|a| a.map(|a| ib(&a))), qo.clone(); n, d);
+        check!(c, call(|| x.rem(&y)).map(|a| ib(&a)), r.clone(); n, d);
+        // operators: `/` yields a CtOption, `%` an Int
+        check!(c, call(|| opt(x / y)).map(|a| a.map(|a| ib(&a))), qo.clone(); n, d);
+        check!(c, call(|| opt(&x / &y)).map(|a| a.map(|a| ib(&a))), qo.clone(); n, d);
+        check!(c, call(|| opt(x / &y)).map(|a| a.map(|a| ib(&a))), qo.clone(); n, d);
+        check!(c, call(|| opt(&x / y)).map(|a| a.map(|a| ib(&a))), qo.clone(); n, d);
+        check!(c, call(|| x % y).map(|a| ib(&a)), r.clone(); n, d);
+        check!(c, call(|| &x % &y).map(|a| ib(&a)), r.clone(); n, d);
+        check!(c, call(|| x % &y).map(|a| ib(&a)), r.clone(); n, d);
+        check!(c, call(|| &x % y).map(|a| ib(&a)), r.clone(); n, d);
+        check!(c, call(|| { let mut t = x; t %= y; t }).map(|a| ib(&a)), r.clone(); n, d);
+        check!(c, call(|| { let mut t = x; t %= &y; t }).map(|a| ib(&a)), r.clone(); n, d);
+        let w = Wrapping(x);
+        check!(c, call(|| w % y).map(|a| ib(&a.0)), r.clone(); n, d);
+        check!(c, call(|| &w % &y).map(|a| ib(&a.0)), r.clone(); n, d);
+        check!(c, call(|| w % &y).map(|a| ib(&a.0)), r.clone(); n, d);
+        check!(c, call(|| &w % y).map(|a| ib(&a.0)), r.clone(); n, d);
+        check!(c, call(|| { let mut t = w; t %= y; t }).map(|a| ib(&a.0)), r.clone(); n, d);
+        check!(c, call(|| { let mut t = w; t %= &y; t }).map(|a| ib(&a.0)), r.clone(); n, d);
+        // the value-returning quotient forms have no value for MIN / -1 (undocumented panic): skip that input
+        if let Some(q) = qo {
+            check!(c, call(|| { let mut t = x; t /= y; t }).map(|a| ib(&a)), q.clone(); n, d);
+            check!(c, call(|| { let mut t = x; t /= &y; t }).map(|a| ib(&a)), q.clone(); n, d);
+            check!(c, call(|| w / y).map(|a| ib(&a.0)), q.clone(); n, d);
+            check!(c, call(|| &w / &y).map(|a| ib(&a.0)), q.clone(); n, d);
+            check!(c, call(|| w / &y).map(|a| ib(&a.0)), q.clone(); n, d);
+            check!(c, call(|| &w / y).map(|a| ib(&a.0)), q.clone(); n, d);
+            check!(c, call(|| { let mut t = w; t /= y; t }).map(|a| ib(&a.0)), q.clone(); n, d);
+            check!(c, call(|| { let mut t = w; t /= &y; t }).map(|a| ib(&a.0)), q.clone(); n, d);
+            check!(c, call(|| x.div_vartime(&y)).map(|a| ib(&a)), q; n, d);
+        }
+    }
+}
+
+fn flooring_ct<const L: usize>(c: &mut Ctx) {
+    let bits = 64 * L as u32;
+    for (n, d) in sdiv_inputs(c, L, L, true) {
+        if c.done() {
+            return;
+        }
+        let x = int::<L>(&n);
+        if d.is_zero() {
+            let none: Option<BigInt> = None;
+            check!(c, call(|| opt(x.checked_div_floor(&int::<L>(&d)))).map(|q| q.map(|q| ib(&q))), none; n, d);
+            continue;
+        }
+        let y = nzi::<L>(&d);
+        let (q, r) = div_floor(&n, &d);
+        let qo = if fits_signed(&q, bits) { Some(q) } else { None };
+        check!(c, call(|| x.checked_div_rem_floor(&y)).map(|(a, b)| (copt(a).map(|a| ib(&a)), ib(&b))), (qo.clone(), r); n, d);
+        check!(c, call(|| opt(x.checked_div_floor(y.as_ref()))).map(|a| a.map(|a| ib(&a))), qo; n, d);
+    }
+}
+
+// ---------------------------------------------------------------- signed divisor, vartime, equal and mixed width
+
+fn signed_vartime<const L: usize, const R: usize>(c: &mut Ctx) {
+    let bits = 64 * L as u32;
+    for (n, d) in sdiv_inputs(c, L, R, true) {
+        if c.done() {
+            return;
+        }
+        let x = int::<L>(&n);
+        if d.is_zero() {
+            let y = int::<R>(&d);
+            let none: Option<BigInt> = None;
+            check!(c, call(|| opt(x.checked_div_vartime(&y))).map(|q| q.map(|q| ib(&q))), none.clone(); n, d);
+            check!(c, call(|| opt(x.checked_div_floor_vartime(&y))).map(|q| q.map(|q| ib(&q))), none; n, d);
+            continue;
+        }
+        let y = nzi::<R>(&d);
+        let (q, r) = trunc(&n, &d);
+        let qo = if fits_signed(&q, bits) { Some(q) } else { None };
+        check!(c, call(|| x.checked_div_rem_vartime(&y)).map(|(a, b)| (copt(a).map(|a| ib(&a)), ib(&b))), (qo.clone(), r.clone()); n, d);
+        check!(c, call(|| opt(x.checked_div_vartime(y.as_ref()))).map(|a| a.map(|a| ib(&a))), qo; n, d);
+        check!(c, call(|| x.rem_vartime(&y)).map(|a| ib(&a)), r; n, d);
+        let (q, r) = div_floor(&n, &d);
+        let qo = if fits_signed(&q, bits) { Some(q) } else { None };
+        check!(c, call(|| x.checked_div_rem_floor_vartime(&y)).map(|(a, b)| (copt(a).map(|a| ib(&a)), ib(&b))), (qo.clone(), r); n, d);
+        check!(c, call(|| opt(x.checked_div_floor_vartime(y.as_ref()))).map(|a| a.map(|a| ib(&a))), qo; n, d);
+    }
+}
+
+// ---------------------------------------------------------------- unsigned divisor, constant time
+
+fn by_uint_ct<const L: usize>(c: &mut Ctx) {
+    for (n, d) in sdiv_inputs(c, L, L, false) {
+        if c.done() {
+            return;
+        }
+        if d.is_zero() {
+            continue;
+        }
+        let (x, y) = (int::<L>(&n), nzu::<L>(d.magnitude()));
+        let (q, r) = trunc(&n, &d);
+        check!(c, call(|| x.div_rem_uint(&y)).map(|(a, b)| (ib(&a), ib(&b))), (q.clone(), r.clone()); n, d);
+        check!(c, call(|| x.div_uint(&y)).map(|a| ib(&a)), q.clone(); n, d);
+        check!(c, call(|| x.rem_uint(&y)).map(|a| ib(&a)), r.clone(); n, d);
+        check!(c, call(|| x / y).map(|a| ib(&a)), q.clone(); n, d);
+        check!(c, call(|| &x / &y).map(|a| ib(&a)), q.clone(); n, d);
+        check!(c, call(|| x / &y).map(|a| ib(&a)), q.clone(); n, d);
+        check!(c, call(|| &x / y).map(|a| ib(&a)), q.clone(); n, d);
+        check!(c, call(|| { let mut t = x; t /= y; t }).map(|a| ib(&a)), q.clone(); n, d);
+        check!(c, call(|| { let mut t = x; t /= &y; t }).map(|a| ib(&a)), q.clone(); n, d);
+        check!(c, call(|| x % y).map(|a| ib(&a)), r.clone(); n, d);
+        check!(c, call(|| &x % &y).map(|a| ib(&a)), r.clone(); n, d);
+        check!(c, call(|| x % &y).map(|a| ib(&a)), r.clone(); n, d);
+        check!(c, call(|| &x % y).map(|a| ib(&a)), r.clone(); n, d);
+        check!(c, call(|| { let mut t = x; t %= y; t }).map(|a| ib(&a)), r.clone(); n, d);
+        check!(c, call(|| { let mut t = x; t %= &y; t }).map(|a| ib(&a)), r.clone(); n, d);
+        let w = Wrapping(x);
+        check!(c, call(|| w / y).map(|a| ib(&a.0)), q.clone(); n, d);
+        check!(c, call(|| &w / &y).map(|a| ib(&a.0)), q.clone(); n, d);
+        check!(c, call(|| w / &y).map(|a| ib(&a.0)), q.clone(); n, d);
+        check!(c, call(|| &w / y).map(|a| ib(&a.0)), q.clone(); n, d);
+        check!(c, call(|| { let mut t = w; t /= y; t }).map(|a| ib(&a.0)), q.clone(); n, d);
+        check!(c, call(|| { let mut t = w; t /= &y; t }).map(|a| ib(&a.0)), q.clone(); n, d);
+        check!(c, call(|| w % y).map(|a| ib(&a.0)), r.clone(); n, d);
+        check!(c, call(|| &w % &y).map(|a| ib(&a.0)), r.clone(); n, d);
+        check!(c, call(|| w % &y).map(|a| ib(&a.0)), r.clone(); n, d);
+        check!(c, call(|| &w % y).map(|a| ib(&a.0)), r.clone(); n, d);
+        check!(c, call(|| { let mut t = w; t %= y; t }).map(|a| ib(&a.0)), r.clone(); n, d);
+        check!(c, call(|| { let mut t = w; t %= &y; t }).map(|a| ib(&a.0)), r.clone(); n, d);
+        // flooring by unsigned: q = floor(n/d), r in [0, d) as a Uint
+        let (q, r) = div_floor(&n, &d);
+        let r = r.to_biguint().expect("floor remainder of a positive divisor is non-negative");
+        check!(c, call(|| x.div_rem_floor_uint(&y)).map(|(a, b)| (ib(&a), ub(&b))), (q.clone(), r.clone()); n, d);
+        check!(c, call(|| x.div_floor_uint(&y)).map(|a| ib(&a)), q; n, d);
+        check!(c, call(|| x.normalized_rem(&y)).map(|a| ub(&a)), r; n, d);
+    }
+}
+
+// ---------------------------------------------------------------- unsigned divisor, vartime, equal and mixed width
+
+fn by_uint_vartime<const L: usize, const R: usize>(c: &mut Ctx) {
+    let rbits = 64 * R as u32;
+    for (n, d) in sdiv_inputs(c, L, R, false) {
+        if c.done() {
+            return;
+        }
+        if d.is_zero() {
+            continue;
+        }
+        let (x, y) = (int::<L>(&n), nzu::<R>(d.magnitude()));
+        let (q, r) = trunc(&n, &d);
+        check!(c, call(|| x.div_uint_vartime(&y)).map(|a| ib(&a)), q.clone(); n, d);
+        // F12: the remainder type Int<R> cannot hold the true remainder
+        let representable = fits_signed(&r, rbits);
+        if !representable {
+            debug_assert!(R < L);
+            c.known = Some("F12");
+        }
+        check!(c, call(|| x.div_rem_uint_vartime(&y)).map(|(a, b)| (ib(&a), ib(&b))), (q, r.clone()); n, d);
+        check!(c, call(|| x.rem_uint_vartime(&y)).map(|a| ib(&a)), r; n, d);
+        c.known = None;
+        let (q, r) = div_floor(&n, &d);
+        let r = r.to_biguint().expect("floor remainder of a positive divisor is non-negative");
+        check!(c, call(|| x.div_rem_floor_uint_vartime(&y)).map(|(a, b)| (ib(&a), ub(&b))), (q.clone(), r.clone()); n, d);
+        check!(c, call(|| x.div_floor_uint_vartime(&y)).map(|a| ib(&a)), q; n, d);
+        check!(c, call(|| x.normalized_rem_vartime(&y)).map(|a| ub(&a)), r; n, d);
+    }
+}
 
 pub fn cases() -> Vec<Case> {
-    Vec::new()
+    let mut v = Vec::new();
+    icases!(v, "checked_div_rem/checked_div/rem/CheckedDiv/DivVartime, operators / % /= %= (Int, Wrapping)", truncating_ct; 1, 2, 3, 4, 8, 16);
+    icases!(v, "checked_div_rem_floor/checked_div_floor", flooring_ct; 1, 2, 3, 4, 8, 16);
+    for (name, f) in [
+        ("I64::checked_div_rem(_floor)_vartime/checked_div(_floor)_vartime/rem_vartime I64/I64", signed_vartime::<1, 1> as fn(&mut Ctx)),
+        ("I128::checked_div_rem(_floor)_vartime/checked_div(_floor)_vartime/rem_vartime I128/I128", signed_vartime::<2, 2>),
+        ("I192::checked_div_rem(_floor)_vartime/checked_div(_floor)_vartime/rem_vartime I192/I192", signed_vartime::<3, 3>),
+        ("I256::checked_div_rem(_floor)_vartime/checked_div(_floor)_vartime/rem_vartime I256/I256", signed_vartime::<4, 4>),
+        ("I512::checked_div_rem(_floor)_vartime/checked_div(_floor)_vartime/rem_vartime I512/I512", signed_vartime::<8, 8>),
+        ("I128::checked_div_rem(_floor)_vartime/checked_div(_floor)_vartime/rem_vartime mixed I128/I64", signed_vartime::<2, 1>),
+        ("I192::checked_div_rem(_floor)_vartime/checked_div(_floor)_vartime/rem_vartime mixed I192/I64", signed_vartime::<3, 1>),
+        ("I256::checked_div_rem(_floor)_vartime/checked_div(_floor)_vartime/rem_vartime mixed I256/I128", signed_vartime::<4, 2>),
+        ("I256::checked_div_rem(_floor)_vartime/checked_div(_floor)_vartime/rem_vartime mixed I256/I192", signed_vartime::<4, 3>),
+        ("I64::checked_div_rem(_floor)_vartime/checked_div(_floor)_vartime/rem_vartime mixed I64/I128", signed_vartime::<1, 2>),
+        ("I128::checked_div_rem(_floor)_vartime/checked_div(_floor)_vartime/rem_vartime mixed I128/I256", signed_vartime::<2, 4>),
+        ("I512::checked_div_rem(_floor)_vartime/checked_div(_floor)_vartime/rem_vartime mixed I512/I256", signed_vartime::<8, 4>),
+        ("I1024::checked_div_rem(_floor)_vartime/checked_div(_floor)_vartime/rem_vartime mixed I1024/I256", signed_vartime::<16, 4>),
+    ] {
+        v.push(Case::new(name, f));
+    }
+    icases!(v, "div_rem_uint/div_uint/rem_uint/div_rem_floor_uint/div_floor_uint/normalized_rem, operators by NonZero<Uint>", by_uint_ct; 1, 2, 3, 4, 8, 16);
+    icases2!(v, "div_rem_uint_vartime/div_uint_vartime/rem_uint_vartime/div_rem_floor_uint_vartime/div_floor_uint_vartime/normalized_rem_vartime", by_uint_vartime;
+        (1, 1), (2, 2), (3, 3), (4, 4), (8, 8), (2, 1), (3, 1), (4, 2), (4, 3), (1, 2), (2, 4), (8, 4), (16, 4));
+    v
 }
